@@ -2,9 +2,15 @@ package c04
 
 import (
 	"context"
+	"crypto/ed25519"
+	"crypto/rand"
+	"crypto/tls"
+	"crypto/x509"
+	"crypto/x509/pkix"
 	"errors"
 	"fmt"
 	"io"
+	"math/big"
 	"net"
 	"os"
 	"regexp"
@@ -31,6 +37,7 @@ import (
 type exchange struct {
 	expect *regexp.Regexp // matched against what the library wrote since the last match (nil: send at once)
 	send   string         // `$1` is replaced by the first capture
+	tls    bool           // after sending, the peer starts a TLS server handshake on the connection
 }
 
 type handshake struct {
@@ -52,10 +59,65 @@ type duplex struct {
 	failRd   int // index of the Read that fails (-1 none)
 	failWr   int
 	notify   chan struct{}
+	// peer side
+	cursor  int  // bytes of out the peer has read
+	stopped bool // the run is over
+	budget  int  // bytes the peer may still deliver (-1 unlimited)
+	sent    int
+	cutHit  bool // the budget ended the peer's stream
 }
 
+// peerEnd is the peer's end of the connection (a net.Conn, so a TLS server can run on it).
+type peerEnd struct{ d *duplex }
+
+var errPeerDone = errors.New("harness: peer stream ended")
+
+func (p peerEnd) Read(b []byte) (int, error) {
+	d := p.d
+	d.mu.Lock()
+	defer d.mu.Unlock()
+	for d.cursor >= len(d.out) && !d.stopped {
+		d.cond.Wait()
+	}
+	if d.cursor >= len(d.out) {
+		return 0, io.EOF
+	}
+	n := copy(b, d.out[d.cursor:])
+	d.cursor += n
+	return n, nil
+}
+
+func (p peerEnd) Write(b []byte) (int, error) {
+	d := p.d
+	d.mu.Lock()
+	defer d.mu.Unlock()
+	if d.eof {
+		return 0, errPeerDone
+	}
+	if d.budget >= 0 && d.sent+len(b) > d.budget {
+		k := d.budget - d.sent
+		d.in = append(d.in, b[:k]...)
+		d.sent = d.budget
+		d.eof = true
+		d.cutHit = true
+		d.cond.Broadcast()
+		return k, errPeerDone
+	}
+	d.in = append(d.in, b...)
+	d.sent += len(b)
+	d.cond.Broadcast()
+	return len(b), nil
+}
+
+func (p peerEnd) Close() error                       { return nil }
+func (p peerEnd) LocalAddr() net.Addr                { return memAddr{} }
+func (p peerEnd) RemoteAddr() net.Addr               { return memAddr{} }
+func (p peerEnd) SetDeadline(t time.Time) error      { return nil }
+func (p peerEnd) SetReadDeadline(t time.Time) error  { return nil }
+func (p peerEnd) SetWriteDeadline(t time.Time) error { return nil }
+
 func newDuplex() *duplex {
-	d := &duplex{failRd: -1, failWr: -1, notify: make(chan struct{}, 1)}
+	d := &duplex{failRd: -1, failWr: -1, budget: -1, notify: make(chan struct{}, 1)}
 	d.cond = sync.NewCond(&d.mu)
 	return d
 }
@@ -103,10 +165,7 @@ func (d *duplex) Write(p []byte) (int, error) {
 		return 0, os.ErrDeadlineExceeded
 	}
 	d.out = append(d.out, p...)
-	select {
-	case d.notify <- struct{}{}:
-	default:
-	}
+	d.cond.Broadcast()
 	return len(p), nil
 }
 
@@ -123,16 +182,10 @@ func (d *duplex) SetDeadline(t time.Time) error {
 func (d *duplex) SetReadDeadline(t time.Time) error  { return d.SetDeadline(t) }
 func (d *duplex) SetWriteDeadline(t time.Time) error { return d.SetDeadline(t) }
 
-func (d *duplex) feed(b []byte) {
-	d.mu.Lock()
-	d.in = append(d.in, b...)
-	d.mu.Unlock()
-	d.cond.Broadcast()
-}
-
 func (d *duplex) end() {
 	d.mu.Lock()
 	d.eof = true
+	d.stopped = true
 	d.mu.Unlock()
 	d.cond.Broadcast()
 }
@@ -144,6 +197,7 @@ type hsResult struct {
 	sent    int // bytes the peer delivered
 	reads   int
 	writes  int
+	cutHit  bool
 }
 
 // play runs one handshake. budget: bytes the peer may send before its stream ends (-1:
@@ -155,32 +209,29 @@ func play(h handshake, budget, failRd, failWr, cancelAt int) hsResult {
 	d.failRd, d.failWr = failRd, failWr
 	ctx, cancel := context.WithCancel(context.Background())
 	defer cancel()
-	stop := make(chan struct{})
-	sent := 0
+	d.budget = budget
 	var peerWG sync.WaitGroup
 	peerWG.Add(1)
 	go func() {
 		defer peerWG.Done()
-		seen := 0
+		var rw io.ReadWriter = peerEnd{d}
+		acc := ""
+		chunk := make([]byte, 4096)
 		for i, st := range h.steps {
 			capture := ""
 			if st.expect != nil {
 				for {
-					d.mu.Lock()
-					buf := string(d.out[seen:])
-					d.mu.Unlock()
-					if m := st.expect.FindStringSubmatchIndex(buf); m != nil {
+					if m := st.expect.FindStringSubmatchIndex(acc); m != nil {
 						if len(m) >= 4 && m[2] >= 0 {
-							capture = buf[m[2]:m[3]]
+							capture = acc[m[2]:m[3]]
 						}
-						seen += m[1]
+						acc = acc[m[1]:]
 						break
 					}
-					select {
-					case <-d.notify:
-					case <-stop:
+					n, err := rw.Read(chunk)
+					acc += string(chunk[:n])
+					if err != nil {
 						return
-					case <-time.After(20 * time.Millisecond):
 					}
 				}
 			}
@@ -189,15 +240,19 @@ func play(h handshake, budget, failRd, failWr, cancelAt int) hsResult {
 				cancel()
 				return
 			}
-			msg := []byte(regexp.MustCompile(`\$1`).ReplaceAllLiteralString(st.send, capture))
-			if budget >= 0 && sent+len(msg) > budget {
-				d.feed(msg[:budget-sent])
-				sent = budget
-				d.end()
+			msg := regexp.MustCompile(`\$1`).ReplaceAllLiteralString(st.send, capture)
+			if _, err := rw.Write([]byte(msg)); err != nil {
 				return
 			}
-			d.feed(msg)
-			sent += len(msg)
+			if st.tls {
+				tc := tls.Server(peerEnd{d}, serverTLS())
+				if err := tc.Handshake(); err != nil {
+					d.end()
+					return
+				}
+				rw = tc
+				acc = ""
+			}
 		}
 		if budget >= 0 {
 			d.end()
@@ -236,13 +291,48 @@ func play(h handshake, budget, failRd, failWr, cancelAt int) hsResult {
 	case <-time.After(5 * time.Second):
 		res.outcome = "STALL"
 	}
-	close(stop)
 	d.end()
 	peerWG.Wait()
 	d.mu.Lock()
-	res.sent, res.reads, res.writes = sent, d.reads, d.writes
+	res.sent, res.reads, res.writes, res.cutHit = d.sent, d.reads, d.writes, d.cutHit
 	d.mu.Unlock()
 	return res
+}
+
+var (
+	tlsOnce   sync.Once
+	tlsServer *tls.Config
+	tlsClient *tls.Config
+)
+
+// serverTLS returns the TLS configuration of the in-process server (a certificate for
+// example.net generated once per run); clientTLS trusts exactly that certificate.
+func serverTLS() *tls.Config { tlsSetup(); return tlsServer }
+func clientTLS() *tls.Config { tlsSetup(); return tlsClient.Clone() }
+
+func tlsSetup() {
+	tlsOnce.Do(func() {
+		// Ed25519: fixed-size keys and signatures keep the length of the handshake stable
+		pub, key, err := ed25519.GenerateKey(rand.Reader)
+		if err != nil {
+			panic(err)
+		}
+		tmpl := &x509.Certificate{
+			SerialNumber: big.NewInt(1), Subject: pkix.Name{CommonName: "example.net"},
+			DNSNames: []string{"example.net"}, NotBefore: time.Now().Add(-time.Hour), NotAfter: time.Now().Add(24 * time.Hour),
+			KeyUsage: x509.KeyUsageDigitalSignature | x509.KeyUsageCertSign, ExtKeyUsage: []x509.ExtKeyUsage{x509.ExtKeyUsageServerAuth},
+			IsCA: true, BasicConstraintsValid: true,
+		}
+		der, err := x509.CreateCertificate(rand.Reader, tmpl, tmpl, pub, key)
+		if err != nil {
+			panic(err)
+		}
+		cert, _ := x509.ParseCertificate(der)
+		pool := x509.NewCertPool()
+		pool.AddCert(cert)
+		tlsServer = &tls.Config{Certificates: []tls.Certificate{{Certificate: [][]byte{der}, PrivateKey: key}}, MinVersion: tls.VersionTLS12, SessionTicketsDisabled: true}
+		tlsClient = &tls.Config{ServerName: "example.net", RootCAs: pool, MinVersion: tls.VersionTLS12}
+	})
 }
 
 const (
@@ -273,14 +363,30 @@ func realHandshakes() []handshake {
 	cfg := func(fs []xmpp.StreamFeature) func(*xmpp.Session, *xmpp.StreamConfig) xmpp.StreamConfig {
 		return func(*xmpp.Session, *xmpp.StreamConfig) xmpp.StreamConfig { return xmpp.StreamConfig{Features: fs} }
 	}
+	starttls := `<starttls xmlns='urn:ietf:params:xml:ns:xmpp-tls'><required/></starttls>`
 	return []handshake{
+		{
+			name: "c2s-starttls-sasl-bind",
+			steps: []exchange{
+				{expect: reStream, send: hdrS("s0") + `<stream:features>` + starttls + mech + `</stream:features>`},
+				{expect: regexp.MustCompile(`<starttls[^>]*/>`), send: `<proceed xmlns='urn:ietf:params:xml:ns:xmpp-tls'/>`, tls: true},
+				{expect: reStream, send: hdrS("s1") + `<stream:features>` + mech + `</stream:features>`},
+				{expect: reAuth, send: fmt.Sprintf(`<success xmlns='%s'/>`, nsSASL)},
+				{expect: reStream, send: hdrS("s2") + `<stream:features>` + bindF + `</stream:features>`},
+				{expect: reIQ, send: bindRes},
+			},
+			run: func(ctx context.Context, c net.Conn) (*xmpp.Session, error) {
+				fs := append([]xmpp.StreamFeature{xmpp.StartTLS(clientTLS())}, clientFeatures()...)
+				return xmpp.NewSession(ctx, srv, me, c, 0, xmpp.NewNegotiator(cfg(fs)))
+			},
+		},
 		{
 			name: "c2s-sasl-bind",
 			steps: []exchange{
-				{reStream, hdrS("s1") + `<stream:features>` + mech + `</stream:features>`},
-				{reAuth, fmt.Sprintf(`<success xmlns='%s'/>`, nsSASL)},
-				{reStream, hdrS("s2") + `<stream:features>` + bindF + `</stream:features>`},
-				{reIQ, bindRes},
+				{expect: reStream, send: hdrS("s1") + `<stream:features>` + mech + `</stream:features>`},
+				{expect: reAuth, send: fmt.Sprintf(`<success xmlns='%s'/>`, nsSASL)},
+				{expect: reStream, send: hdrS("s2") + `<stream:features>` + bindF + `</stream:features>`},
+				{expect: reIQ, send: bindRes},
 			},
 			run: func(ctx context.Context, c net.Conn) (*xmpp.Session, error) {
 				return xmpp.NewSession(ctx, srv, me, c, xmpp.Secure, xmpp.NewNegotiator(cfg(clientFeatures())))
@@ -289,10 +395,10 @@ func realHandshakes() []handshake {
 		{
 			name: "ws-sasl-bind",
 			steps: []exchange{
-				{reOpen, wsOpen("s1") + fmt.Sprintf(`<stream:features xmlns:stream='%s'>`, nsStreams) + mech + `</stream:features>`},
-				{reAuth, fmt.Sprintf(`<success xmlns='%s'/>`, nsSASL)},
-				{reOpen, wsOpen("s2") + fmt.Sprintf(`<stream:features xmlns:stream='%s'>`, nsStreams) + bindF + `</stream:features>`},
-				{reIQ, bindRes},
+				{expect: reOpen, send: wsOpen("s1") + fmt.Sprintf(`<stream:features xmlns:stream='%s'>`, nsStreams) + mech + `</stream:features>`},
+				{expect: reAuth, send: fmt.Sprintf(`<success xmlns='%s'/>`, nsSASL)},
+				{expect: reOpen, send: wsOpen("s2") + fmt.Sprintf(`<stream:features xmlns:stream='%s'>`, nsStreams) + bindF + `</stream:features>`},
+				{expect: reIQ, send: bindRes},
 			},
 			run: func(ctx context.Context, c net.Conn) (*xmpp.Session, error) {
 				return xmpp.NewSession(ctx, srv, me, c, xmpp.Secure, websocket.Negotiator(cfg(clientFeatures())))
@@ -301,11 +407,11 @@ func realHandshakes() []handshake {
 		{
 			name: "recv-sasl-bind",
 			steps: []exchange{
-				{nil, fmt.Sprintf(`<?xml version='1.0'?><stream:stream xmlns='jabber:client' xmlns:stream='%s' version='1.0' to='example.net'>`, nsStreams)},
-				{regexp.MustCompile(`</stream:features>`), fmt.Sprintf(`<auth xmlns='%s' mechanism='PLAIN'>AG1lAHB3</auth>`, nsSASL)},
-				{regexp.MustCompile(`<success[^>]*>`), fmt.Sprintf(`<stream:stream xmlns='jabber:client' xmlns:stream='%s' version='1.0' to='example.net'>`, nsStreams)},
-				{regexp.MustCompile(`</stream:features>`), fmt.Sprintf(`<iq xmlns='jabber:client' type='set' id='b1'><bind xmlns='%s'/></iq>`, nsBind)},
-				{regexp.MustCompile(`</iq>`), ``},
+				{expect: nil, send: fmt.Sprintf(`<?xml version='1.0'?><stream:stream xmlns='jabber:client' xmlns:stream='%s' version='1.0' to='example.net'>`, nsStreams)},
+				{expect: regexp.MustCompile(`</stream:features>`), send: fmt.Sprintf(`<auth xmlns='%s' mechanism='PLAIN'>AG1lAHB3</auth>`, nsSASL)},
+				{expect: regexp.MustCompile(`<success[^>]*>`), send: fmt.Sprintf(`<stream:stream xmlns='jabber:client' xmlns:stream='%s' version='1.0' to='example.net'>`, nsStreams)},
+				{expect: regexp.MustCompile(`</stream:features>`), send: fmt.Sprintf(`<iq xmlns='jabber:client' type='set' id='b1'><bind xmlns='%s'/></iq>`, nsBind)},
+				{expect: regexp.MustCompile(`</iq>`), send: ``},
 			},
 			run: func(ctx context.Context, c net.Conn) (*xmpp.Session, error) {
 				fs := []xmpp.StreamFeature{
@@ -318,8 +424,8 @@ func realHandshakes() []handshake {
 		{
 			name: "component",
 			steps: []exchange{
-				{reStream, fmt.Sprintf(`<?xml version='1.0'?><stream:stream xmlns='jabber:component:accept' xmlns:stream='%s' from='comp.example.net' id='abc'>`, nsStreams)},
-				{regexp.MustCompile(`</handshake>`), `<handshake/>`},
+				{expect: reStream, send: fmt.Sprintf(`<?xml version='1.0'?><stream:stream xmlns='jabber:component:accept' xmlns:stream='%s' from='comp.example.net' id='abc'>`, nsStreams)},
+				{expect: regexp.MustCompile(`</handshake>`), send: `<handshake/>`},
 			},
 			run: func(ctx context.Context, c net.Conn) (*xmpp.Session, error) {
 				return component.NewSession(ctx, jid.MustParse("comp.example.net"), []byte("secret"), c)
@@ -366,7 +472,9 @@ func runReal(r *common.Run) {
 			if (n+off)%stride != 0 && n > 3 && n < clean.sent-3 {
 				continue
 			}
-			emit("cut", n, play(h, n, -1, -1, -1))
+			if res := play(h, n, -1, -1, -1); res.cutHit {
+				emit("cut", n, res)
+			}
 		}
 		for k := 0; k < clean.reads; k++ {
 			emit("rd", k, play(h, -1, k, -1, -1))
